@@ -651,7 +651,8 @@ def factory_cases(rng, tier):
             w1, w2, w3 = float(gc.det_params.max_pt[0]), float(gc3.det_params.max_pt[0]), float(gh.det_params.max_pt[0])
             assert r1 == r2 == -float(gp.det_params.min_pt[0]) and w1 == w2 == w3 == -float(gc.det_params.min_pt[0])
             assert list(gp3.det_params.min_pt[1:]) == [lo[2]] and list(gp3.det_params.max_pt[1:]) == [hi[2]]
-            return [r1, w1, gh.offset_along_axis, gh.pitch]
+            return [r1, w1, gh.offset_along_axis, gh.pitch, gc.src_radius, gc.det_radius, gc3.src_radius, gc3.det_radius,
+                    gh.src_radius, gh.det_radius]
         model = 'obs_factory %s' % ' '.join(C.q(x) for x in (lo[0], hi[0], lo[1], hi[1], lo[2], hi[2], rs, rd, turns))
         add_case(cs, model, impl(run), {'fn': 'factories', 'min_pt': lo, 'max_pt': hi, 'src_radius': rs,
                                         'det_radius': rd, 'num_turns': turns},
@@ -1066,6 +1067,248 @@ def _probe_curved(rng, tier):
     return out
 
 
+_KINDS = ['pyscalar', 'zerod', 'len1', 'vec', 'col', 'row']
+
+
+def _mk_kind(rng, kind, n=3):
+    def r():
+        return round(rng.uniform(-3.5, 3.5), 3)
+    if kind == 'pyscalar':
+        return r()
+    if kind == 'zerod':
+        return np.array(r())
+    shape = {'len1': (1,), 'vec': (n,), 'col': (n, 1), 'row': (1, n)}[kind]
+    return np.array([r() for _ in range(int(np.prod(shape)))]).reshape(shape)
+
+
+def _shape_geoms():
+    """Deterministic list (name, key, geometry): one geometry per class / detector type, no shift functions."""
+    import odl
+    geoms = _rand_geoms(C.rng_for('C19-shapes', 0), 'quick')
+    seen = set()
+    sel = []
+    for name, key, g in geoms:
+        k = (key, type(g.detector).__name__)
+        if k not in seen and not isinstance(getattr(g, 'src_shift_func', None), Shift) \
+                and not isinstance(getattr(g, 'det_shift_func', None), Shift):
+            seen.add(k)
+            sel.append((name, key, g))
+    ap, _ = _parts(odl, 1)
+    _, dp2 = _parts(odl, 2)
+    for kind, curv in (('cyl', (2.5, None)), ('sph', (2.5, 2.5))):
+        sel.append(('ConeBeamGeometry[%s]' % kind, 'cone', odl.tomo.ConeBeamGeometry(ap, dp2, 3.0, 2.0,
+                                                                                  det_curvature_radius=curv, pitch=1.5)))
+    return sel
+
+
+def _lit(p):
+    """Python source of a parameter (scalar, array or tuple of those)."""
+    if isinstance(p, tuple):
+        return '(' + ', '.join(_lit(c) for c in p) + ',)'
+    if isinstance(p, np.ndarray):
+        return 'np.array(%r).reshape(%r)' % (p.ravel().tolist() if p.ndim else float(p), p.shape)
+    return repr(float(p))
+
+
+def _shape_check(owner, fname, tail, *params):
+    """(ok, observed shape, expected shape): owner.fname(*params) has shape broadcast(params).shape + tail and equals
+    the loop over scalar calls."""
+    f = getattr(owner, fname)
+
+    def comps(p):
+        return list(p) if isinstance(p, tuple) else [p]
+    shp = np.broadcast(*[np.asarray(c) for p in params for c in comps(p)]).shape
+    try:
+        full = np.asarray(f(*params))
+    except Exception as e:      # noqa
+        return False, repr(e)[:100], tuple(shp) + tuple(tail)
+    ok = full.shape == tuple(shp) + tuple(tail)
+    if ok:
+        for ix in np.ndindex(*shp):
+            one = []
+            for p in params:
+                cs_ = [float(np.broadcast_to(np.asarray(c), shp)[ix]) for c in comps(p)]
+                one.append(tuple(cs_) if isinstance(p, tuple) else cs_[0])
+            ok = ok and np.allclose(full[ix], f(*one), atol=1e-10)
+    return bool(ok), full.shape, tuple(shp) + tuple(tail)
+
+
+def _probe_shapes(rng, tier):
+    """Documented output shapes under scalar/array mixing.  The rigid-motion theorems are statements per
+    (angle, detector parameter) point; this probe lifts them to the documented broadcasting: for every vectorised
+    method, every kind of argument {python scalar, 0-d array, shape (1,), (n,), (n,1), (1,n)} for the motion
+    parameter x the same kinds for the detector parameter (tuples of such for 2-d parameters, including mixed
+    scalar/array components), the result has shape broadcast(mparam, dparam).shape + tail -- squeezed only when ALL
+    parameters are scalars -- and equals a loop of scalar calls."""
+    import odl
+    out = []
+    tol = 1e-10
+    sel = _shape_geoms()
+    pairs = [(a, b) for a in _KINDS for b in _KINDS]
+    if tier == 'quick':
+        pairs = [p for p in pairs if rng.random() < 0.45 or 'pyscalar' in p or 'len1' in p]
+
+    def comps(p):
+        return list(p) if isinstance(p, tuple) else [p]
+
+    def bshape(*ps):
+        return np.broadcast(*[np.asarray(c) for p in ps for c in comps(p)]).shape
+
+    def at(p, shp, ix, nd):
+        cs_ = [float(np.broadcast_to(np.asarray(c), shp)[ix]) for c in comps(p)]
+        return cs_[0] if nd == 1 else tuple(cs_)
+
+    def psi_only(a):
+        """Three Euler angles whose broadcast shape is not already that of (phi, theta) (recorded finding)."""
+        cs_ = comps(a)
+        return len(cs_) == 3 and bshape(tuple(cs_[:2])) != bshape(tuple(cs_))
+
+    def build(nd, kind):
+        """Parameter of the given kind; for 2-d parameters also variants with one scalar component."""
+        if nd == 1:
+            return [_mk_kind(rng, kind)]
+        vs = [tuple(_mk_kind(rng, kind) for _ in range(nd))]
+        if kind not in ('pyscalar', 'zerod'):
+            vs.append(tuple([_mk_kind(rng, kind)] + [_mk_kind(rng, 'pyscalar') for _ in range(nd - 1)]))
+            vs.append(tuple([_mk_kind(rng, 'pyscalar') for _ in range(nd - 1)] + [_mk_kind(rng, kind)]))
+        return vs
+    def replay(gi, on_det, fname, tail, params):
+        return ("import numpy as np, sys\nsys.path.insert(0, %r)\nfrom harness.c19 import _shape_geoms, _shape_check\n"
+                "g = _shape_geoms()[%d][2]\nowner = g.detector if %r else g\n"
+                "ok, observed, expected = _shape_check(owner, %r, %r, %s)\n"
+                % (C.VERIF, gi, on_det, fname, tuple(tail), ', '.join(_lit(p) for p in params)))
+    for gi, (name, key, g) in enumerate(sel):
+        nd, mnd, dnd = g.ndim, g.motion_params.ndim, g.det_params.ndim
+        det = type(g.detector).__name__
+        two = [('det_point_position', (nd,)), ('det_to_src', (nd,))]
+        one_m = [('rotation_matrix', (nd, nd)), ('det_refpoint', (nd,))]
+        if hasattr(g, 'src_position'):
+            one_m.append(('src_position', (nd,)))
+        if hasattr(g, 'det_axes'):
+            one_m.append(('det_axes', (2, nd)))
+        one_d = [('surface', (nd,)), ('surface_normal', (nd,)), ('surface_deriv', (nd,) if dnd == 1 else (2, nd)),
+                 ('surface_measure', ())]
+        for ka, ku in pairs:
+            for a in build(mnd, ka)[:1 if tier == 'quick' else 3]:
+                for u in build(dnd, ku)[:2 if tier == 'quick' else 3]:
+                    for fname, tail in two:
+                        ok, obs, exp = _shape_check(g, fname, tail, a, u)
+                        k = 'shape-%s-%s' % (key, fname)
+                        if key == 'par3d' and psi_only(a):
+                            k = 'euler-matrix-psi-broadcast'
+                        out.append(C.Probe(ok, k, '%s.%s(mparam kind %s %s, dparam kind %s %s): documented shape %s and values '
+                                           'of scalar calls' % (name, fname, ka, [np.shape(c) for c in comps(a)], ku,
+                                                                [np.shape(c) for c in comps(u)], exp),
+                                           replay(gi, False, fname, tail, (a, u)), {'observed': obs}))
+        for kind in _KINDS:
+            for which, fns, pnd in (('m', one_m, mnd), ('d', one_d, dnd)):
+                for p in build(pnd, kind):
+                    for fname, tail in fns:
+                        ok, obs, exp = _shape_check(g if which == 'm' else g.detector, fname, tail, p)
+                        owner = key if which == 'm' else det
+                        k = 'shape-%s-%s' % (owner, fname)
+                        if which == 'm' and key == 'par3d' and psi_only(p):
+                            k = 'euler-matrix-psi-broadcast'
+                        if fname == 'surface_measure' and pnd == 2 and len(set(np.shape(c) for c in comps(p))) > 1:
+                            k = 'surface-measure-mixed-param-shapes'
+                        out.append(C.Probe(ok, k, '%s.%s(param kind %s %s): documented shape %s and values of scalar calls'
+                                           % (name if which == 'm' else det, fname, kind, [np.shape(c) for c in comps(p)], exp),
+                                           replay(gi, which == 'd', fname, tail, (p,)), {'observed': obs}))
+    return out
+
+
+def _probe_factory_attributes(rng, tier):
+    """Every factory, every keyword: each attribute of the returned geometry equals the requested value (src_radius !=
+    det_radius in both orders), and -- computed from the returned object's own src_position / det_refpoint / det_axes --
+    every volume corner on the detector side of the rotation axis projects inside the detector (the part of the coverage
+    statement that is a theorem for the current width formula: cone_factory_coverage_partial)."""
+    import odl
+    out = []
+    pre = ("import numpy as np, odl, sys\nsys.path.insert(0, %r)\nfrom harness.c19 import _hit_coords\n" % C.VERIF)
+    reps = 3 if tier == 'quick' else 10
+    for _ in range(reps):
+        lo = [round(rng.uniform(-2, -0.5), 2) for _ in range(3)]
+        hi = [round(rng.uniform(0.5, 2), 2) for _ in range(3)]
+        shape = [rng.randint(4, 9) for _ in range(3)]
+        rho = float(np.max(np.linalg.norm(np.array([[x, y] for x in (lo[0], hi[0]) for y in (lo[1], hi[1])]), axis=1)))
+        big, small = round(rho * rng.uniform(2.5, 4), 2), round(rho * rng.uniform(1.1, 1.8), 2)
+        for rs, rd in ((big, small), (small, big)):
+            na, ds1, ds2 = rng.randint(5, 40), rng.randint(5, 30), [rng.randint(5, 30), rng.randint(3, 12)]
+            turns = rng.choice([1, 2, 3])
+            cases = [
+                ('parallel_beam_geometry-2d', 2, 'odl.tomo.parallel_beam_geometry(space)', {}, 'Parallel2dGeometry'),
+                ('parallel_beam_geometry-2d', 2, 'odl.tomo.parallel_beam_geometry(space, num_angles=%d, det_shape=%d)' % (na, ds1),
+                 {'num_angles': na, 'det_shape': (ds1,)}, 'Parallel2dGeometry'),
+                ('parallel_beam_geometry-3d', 3, 'odl.tomo.parallel_beam_geometry(space, num_angles=%d, det_shape=%r)' % (na, ds2),
+                 {'num_angles': na, 'det_shape': tuple(ds2)}, 'Parallel3dAxisGeometry'),
+                ('cone_beam_geometry-2d', 2, 'odl.tomo.cone_beam_geometry(space, %r, %r)' % (rs, rd), {'rs': rs, 'rd': rd},
+                 'FanBeamGeometry'),
+                ('cone_beam_geometry-2d', 2, 'odl.tomo.cone_beam_geometry(space, src_radius=%r, det_radius=%r, num_angles=%d, '
+                 'short_scan=True, det_shape=%d)' % (rs, rd, na, ds1),
+                 {'rs': rs, 'rd': rd, 'num_angles': na, 'det_shape': (ds1,), 'short': True}, 'FanBeamGeometry'),
+                ('cone_beam_geometry-3d', 3, 'odl.tomo.cone_beam_geometry(space, %r, %r)' % (rs, rd), {'rs': rs, 'rd': rd},
+                 'ConeBeamGeometry'),
+                ('cone_beam_geometry-3d', 3, 'odl.tomo.cone_beam_geometry(space, det_radius=%r, src_radius=%r, num_angles=%d, '
+                 'det_shape=%r)' % (rd, rs, na, ds2), {'rs': rs, 'rd': rd, 'num_angles': na, 'det_shape': tuple(ds2)},
+                 'ConeBeamGeometry'),
+                ('helical_geometry', 3, 'odl.tomo.helical_geometry(space, %r, %r, num_turns=%r)' % (rs, rd, turns),
+                 {'rs': rs, 'rd': rd, 'turns': turns}, 'ConeBeamGeometry'),
+                ('helical_geometry', 3, 'odl.tomo.helical_geometry(space, src_radius=%r, det_radius=%r, num_turns=%r, n_pi=3, '
+                 'num_angles=%d, det_shape=%r)' % (rs, rd, turns, na, ds2),
+                 {'rs': rs, 'rd': rd, 'turns': turns, 'num_angles': na, 'det_shape': tuple(ds2)}, 'ConeBeamGeometry')]
+            for fkey, nd, ctor, want, cls in cases:
+                head = pre + "space = odl.uniform_discr(%r, %r, %r)\ng = %s\nwant = %r\n" % (lo[:nd], hi[:nd], shape[:nd], ctor, want)
+                rp = head + (
+                    "bad = []\n"
+                    "if type(g).__name__ != %r: bad.append(('class', type(g).__name__))\n"
+                    "if 'rs' in want and g.src_radius != want['rs']: bad.append(('src_radius', g.src_radius))\n"
+                    "if 'rd' in want and g.det_radius != want['rd']: bad.append(('det_radius', g.det_radius))\n"
+                    "if 'num_angles' in want and g.angles.size != want['num_angles']: bad.append(('num_angles', g.angles.size))\n"
+                    "if 'det_shape' in want and tuple(g.detector.shape) != want['det_shape']: bad.append(('det_shape', g.detector.shape))\n"
+                    "if not np.array_equal(g.translation, np.zeros(g.ndim)): bad.append(('translation', g.translation))\n"
+                    "if hasattr(g, 'axis') and not np.array_equal(g.axis, [0, 0, 1]): bad.append(('axis', g.axis))\n"
+                    "if 'turns' in want:\n"
+                    "    if abs(g.pitch - (space.max_pt[2] - space.min_pt[2]) / want['turns']) > 1e-12: bad.append(('pitch', g.pitch))\n"
+                    "    if g.offset_along_axis != space.min_pt[2]: bad.append(('offset_along_axis', g.offset_along_axis))\n"
+                    "    if abs(g.motion_params.max_pt[0] - 2 * np.pi * want['turns']) > 1e-12: bad.append(('max_angle', g.motion_params.max_pt))\n"
+                    "elif hasattr(g, 'pitch') and (g.pitch != 0 or g.offset_along_axis != 0): bad.append(('pitch', g.pitch))\n"
+                    "if g.motion_params.min_pt[0] != 0: bad.append(('min_angle', g.motion_params.min_pt))\n"
+                    "if type(g).__name__.startswith('Parallel') and abs(g.motion_params.max_pt[0] - np.pi) > 1e-12: bad.append(('max_angle', g.motion_params.max_pt))\n"
+                    "if 'rs' in want and 'turns' not in want and not want.get('short') and abs(g.motion_params.max_pt[0] - 2 * np.pi) > 1e-12: bad.append(('max_angle', g.motion_params.max_pt))\n"
+                    "if not np.allclose(g.det_params.min_pt, -np.asarray(g.det_params.max_pt)) and g.ndim == 2: bad.append(('det range', g.det_params))\n"
+                    "observed = bad; expected = []; ok = not bad\n" % cls)
+                env = {}
+                try:
+                    exec(rp, env)
+                    ok, obs = env['ok'], env['bad']
+                except Exception as e:      # noqa
+                    ok, obs = False, repr(e)
+                out.append(C.Probe(bool(ok), 'factory-attributes-' + fkey,
+                                   '%s: every attribute of the returned geometry equals the requested value' % ctor, rp,
+                                   {'mismatches': str(obs)}))
+                if 'rs' not in want:
+                    continue
+                rp = head + (
+                    "worst = 0.0\nhi_ = float(np.atleast_1d(g.det_params.max_pt)[0]); lo_ = float(np.atleast_1d(g.det_params.min_pt)[0])\n"
+                    "for a in g.angles:\n    src = g.src_position(a); ref = g.det_refpoint(a)\n"
+                    "    central = (ref - src)[:2] / np.linalg.norm((ref - src)[:2])\n"
+                    "    for X in space.domain.corners():\n"
+                    "        if np.dot(X[:2], central) < 0:\n            continue        # source side of the axis: not claimed\n"
+                    "        u = _hit_coords(g, a, X)[0]\n        worst = max(worst, (u - hi_) / (hi_ - lo_), (lo_ - u) / (hi_ - lo_))\n"
+                    "observed = worst; expected = 'relative overshoot <= 1e-9'; ok = bool(worst <= 1e-9)\n")
+                env = {}
+                try:
+                    exec(rp, env)
+                    ok, obs = env['ok'], env['worst']
+                except Exception as e:      # noqa
+                    ok, obs = False, repr(e)
+                out.append(C.Probe(bool(ok), 'factory-far-half-coverage-' + fkey,
+                                   '%s: every volume corner on the detector side of the axis projects inside the detector '
+                                   '(horizontally), from the returned geometry\'s own source and detector positions' % ctor, rp,
+                                   {'overshoot': obs}))
+    return out
+
+
 def _probe_misc(rng, tier):
     import odl
     T = odl.tomo
@@ -1264,8 +1507,10 @@ def probes(rng, tier):
     out.extend(_probe_slicing(rng, tier))
     out.extend(_probe_frommatrix(rng, tier))
     out.extend(_probe_factories(rng, tier))
+    out.extend(_probe_factory_attributes(rng, tier))
     out.extend(_probe_misc(rng, tier))
     out.extend(_probe_curved(rng, tier))
+    out.extend(_probe_shapes(rng, tier))
     return out
 
 
